@@ -220,6 +220,22 @@ def process(unit_name, out_dir, mode='verify'):
             u.extracted.append(dict(file='crates/rs1090/src/decode/mod.rs', item='serde attributes of enum DF / struct ADSB / struct ControlField (shown df / icao24 oracle)', lines=[0, 0], sha256_16='', rules={'RO': 1}))
             u.rules.bump('RO')
             continue
+        if cmd == 'country-table':
+            # RC: the address-block table of crates/rs1090/data/patterns.json (start, end, literal prefixes of the block's
+            # registration pattern), regenerated from /repo on every run; the order of the rows is the order of the
+            # file (aircraft_information takes the FIRST block containing the address)
+            import country
+            rel = 'crates/rs1090/data/patterns.json'
+            pth = os.path.join(REPO, rel)
+            if not os.path.exists(pth):
+                raise ExtractError('source file missing: %s' % rel)
+            try:
+                out.append(country.emit(pth))
+            except country.Unsupported as e:
+                raise ExtractError('country table: %s' % e)
+            u.extracted.append(dict(file=rel, item='registers[*].start / end / pattern (address-block table, patterns expanded to literal prefixes)', lines=[1, open(pth).read().count('\n')], sha256_16=sha(open(pth).read()), rules={'RC': 1}))
+            u.rules.bump('RC')
+            continue
         if cmd == 'path-include':
             # the real file is compiled unmodified: `#[path = "<repo>/..."] mod NAME;`
             rel, name = toks[1], toks[2]
